@@ -2,6 +2,7 @@ package main
 
 import (
 	"fmt"
+	"go/types"
 	"strings"
 
 	"golang.org/x/tools/go/ssa"
@@ -94,6 +95,79 @@ func returnOrder(fn *ssa.Function, r *ssa.Return) (dir, key string, ok bool) {
 	return "", "", false
 }
 
+// forwardedComparator: a comparator that only forwards to a function its enclosing new helper
+// received as a parameter — sortBy(items, less) { sort.Slice(items, func(i, j int) bool {
+// return less(items[i], items[j]) }) } — stands for the function literal the root passes for
+// that parameter (same argument order only).
+func forwardedComparator(root, f *ssa.Function) *ssa.Function {
+	h := f.Parent()
+	if h == nil || !isNewHelper(h) || len(f.Params) != 2 {
+		return f
+	}
+	var ret *ssa.Return
+	for _, b := range f.Blocks {
+		if r, ok := b.Instrs[len(b.Instrs)-1].(*ssa.Return); ok {
+			if ret != nil {
+				return f
+			}
+			ret = r
+		}
+	}
+	if ret == nil || len(ret.Results) != 1 {
+		return f
+	}
+	call, ok := ret.Results[0].(*ssa.Call)
+	if !ok || len(call.Common().Args) != 2 {
+		return f
+	}
+	var prm *ssa.Parameter
+	switch v := call.Common().Value.(type) {
+	case *ssa.FreeVar:
+		prm, _ = bindingOf(v).(*ssa.Parameter)
+	case *ssa.UnOp:
+		if fv, isFV := v.X.(*ssa.FreeVar); isFV {
+			if al, isAl := bindingOf(fv).(*ssa.Alloc); isAl {
+				prm, _ = uniqueStore(al).(*ssa.Parameter)
+			}
+		}
+	}
+	if prm == nil || prm.Parent() != h {
+		return f
+	}
+	// the arguments are the elements at the comparator's first and second index, in that order
+	a0, a1 := T(call.Common().Args[0]), T(call.Common().Args[1])
+	uses := func(t *Term, p string) bool {
+		return t.Any(func(y *Term) bool { return y.Op == "param" && y.Sym == p })
+	}
+	if !(uses(a0, "p0") && !uses(a0, "p1") && uses(a1, "p1") && !uses(a1, "p0")) {
+		return f
+	}
+	k := -1
+	for i, q := range h.Params {
+		if q == prm {
+			k = i
+		}
+	}
+	var lit *ssa.Function
+	n := 0
+	for _, c := range AllCallsDeep(root) {
+		if c.Common().StaticCallee() != h || k < 0 || k >= len(c.Common().Args) {
+			continue
+		}
+		n++
+		switch x := c.Common().Args[k].(type) {
+		case *ssa.MakeClosure:
+			lit, _ = x.Fn.(*ssa.Function)
+		case *ssa.Function:
+			lit = x
+		}
+	}
+	if n == 1 && lit != nil && len(lit.Params) == 2 {
+		return lit
+	}
+	return f
+}
+
 // sortCallNames: the library sorts whose second argument is a comparator.
 func isSortCall(name string) bool {
 	return name == "sort.Slice" || name == "sort.SliceStable" || strings.HasPrefix(name, "slices.SortFunc") || strings.HasPrefix(name, "slices.SortStableFunc")
@@ -113,6 +187,7 @@ func sortSites(fn *ssa.Function) (calls []ssa.CallInstruction, cmps []*ssa.Funct
 			f = x
 		}
 		if f != nil {
+			f = forwardedComparator(fn, f)
 			calls = append(calls, call)
 			cmps = append(cmps, f)
 		}
@@ -181,116 +256,107 @@ func runC06(c *Ctx) {
 	}}
 
 	// ---- R1
+	checkAggregateCommitVerifier(c, "C06.R1", vac)
 	ff := factsOf(vac)
-	nAcc := 0
-	for _, r := range Returns(vac) {
-		if classifyReturn(ff, r) != RetNil {
-			continue
-		}
-		fs := ff.FactsAt(r.Block())
-		// the early exit for "no new certificate": Empty() ∧ Height == maxHeightCertified
-		early := false
-		for _, f := range fs {
-			if f.Entails(CmpSpec{A: commitH, B: IsResult(heights, 2), Rel: EQ, D: 0}) {
-				early = true
+	_, _, _, _ = ff, commitH, heights, nextH
+
+	// ---- R7 gossip bookkeeping moves commits, it never adds any: what Upgrade stores into the
+	// pool's two lists is built only from elements that were in the pool already (only Add
+	// inserts). Appending the caller's selection itself re-inserts commits that are in the pool
+	// already — duplicates whose weight the aggregation then counts twice.
+	if up := c.Anchor("pkg/consensus/certificate.(*Pool).Upgrade"); up != nil {
+		const PL = "consensus/certificate.Pool"
+		isPoolList := func(v ssa.Value) bool {
+			ld, ok := stripConv(v).(*ssa.UnOp)
+			if !ok {
+				return false
 			}
+			fa, ok := ld.X.(*ssa.FieldAddr)
+			if !ok {
+				return false
+			}
+			o, st := ownerOfFieldBase(fa.X.Type())
+			n := fieldNameOf(st.Field(fa.Field))
+			return o == PL && (n == "gossiped" || n == "nonGossiped")
 		}
-		if early {
-			okE, _ := ff.BoolHoldsAt(r.Block(), IsCall("(*blockchain.AggregateCommit).Empty"), true)
-			c.Require("C06.R1 accept-edge", FuncKey(vac)+": empty commit", p.InstrPos(r), "an empty commit is accepted only when it is Empty() and restates maxHeightCertified", okE, "")
-			continue
-		}
-		nAcc++
-		chk := func(name string, spec CmpSpec) {
-			ok, why := false, ""
-			for _, f := range fs {
-				if f.Entails(spec) {
-					ok, why = true, f.String()
+		var fromPool func(v ssa.Value, seen map[ssa.Value]bool) (bool, string)
+		fromPool = func(v ssa.Value, seen map[ssa.Value]bool) (bool, string) {
+			v = stripConv(v)
+			if seen[v] {
+				return true, ""
+			}
+			seen[v] = true
+			if isPoolList(v) {
+				return true, ""
+			}
+			switch x := v.(type) {
+			case *ssa.Const:
+				return x.Value == nil, "constant"
+			case *ssa.MakeSlice:
+				return true, ""
+			case *ssa.Phi:
+				for _, e := range x.Edges {
+					if ok, why := fromPool(e, seen); !ok {
+						return false, why
+					}
+				}
+				return true, ""
+			case *ssa.Slice:
+				if al, isAl := x.X.(*ssa.Alloc); isAl {
+					// a literal or the temporary of a variadic call: every element stored into it
+					if elems, ok := arrayElems(al); ok {
+						for _, e := range elems {
+							if ok, why := fromPool(e, seen); !ok {
+								return false, why
+							}
+						}
+						return true, ""
+					}
+					return false, "array " + al.Comment
+				}
+				return fromPool(x.X, seen)
+			case *ssa.UnOp:
+				// an element of a pool-derived slice
+				if ia, ok := x.X.(*ssa.IndexAddr); ok {
+					return fromPool(ia.X, seen)
+				}
+				if al, ok := x.X.(*ssa.Alloc); ok {
+					if sv := uniqueStore(al); sv != nil {
+						return fromPool(sv, seen)
+					}
+				}
+			case *ssa.Call:
+				if CalleeName(x.Common()) == "builtin:append" {
+					for _, a := range x.Common().Args {
+						if ok, why := fromPool(a, seen); !ok {
+							return false, why
+						}
+					}
+					return true, ""
+				}
+				if newHelperCallee(x) != nil {
+					// a new helper can only rearrange the slices it is handed
+					for _, a := range x.Common().Args {
+						if _, isSlice := a.Type().Underlying().(*types.Slice); isSlice {
+							if ok, why := fromPool(a, seen); !ok {
+								return false, why
+							}
+						}
+					}
+					return true, ""
 				}
 			}
-			c.Require("C06.R1 accept-edge", FuncKey(vac)+": "+name, p.InstrPos(r), "the accepting exit is dominated by this bound", ok, why)
+			return false, T(v).String()
 		}
-		chk("height > maxHeightCertified", CmpSpec{A: commitH, B: IsResult(heights, 2), Rel: GE, D: 1})
-		chk("height <= maxHeightPrecommitted", CmpSpec{A: commitH, B: IsResult(heights, 1), Rel: LE, D: 0})
-		chk("aggregation bits non-empty", CmpSpec{A: LenOf(IsFieldOf(AC, "AggregationBits", IsParam(2))), NoB: true, Rel: NE, D: 0})
-		chk("signature non-empty", CmpSpec{A: LenOf(IsFieldOf(AC, "CertificateSignature", IsParam(2))), NoB: true, Rel: NE, D: 0})
-		okV, _ := ff.BoolHoldsAt(r.Block(), IsCall("(consensus/certificate.Certificate).VerifyAggregateCertificateSignature"), true)
-		c.Require("C06.R1 accept-edge", FuncKey(vac)+": weighted aggregate signature valid", p.InstrPos(r), "accepted only when VerifyAggregateCertificateSignature answered true", okV, "")
-		for _, callee := range []string{heights, "(*blockchain.DataAccess).GetBlockHeaderByHeight", "(*consensus/liskbft.API).GetBFTParameters"} {
-			ok, why := ff.NilErrAt(r.Block(), IsCall(callee))
-			c.Require("C06.R1 accept-edge", FuncKey(vac)+": "+callee+" succeeded", p.InstrPos(r), "accepted only on the nil-error edge", ok, why)
+		n := 0
+		for _, fld := range []string{"gossiped", "nonGossiped"} {
+			for _, st := range storesToField(up, PL, fld) {
+				n++
+				ok, why := fromPool(st.Val, map[ssa.Value]bool{})
+				c.Require("C06.R7 upgrade-moves-commits", FuncKey(up)+": "+fld+" =", p.InstrPos(st), "the new list holds only commits that were in the pool (moved or kept), never the caller's selection itself", ok, "comes from: "+why)
+			}
 		}
-	}
-	c.MinInstances("C06.R1 accept-edge", nAcc, 1)
-	// next-parameter bound: a rejecting edge height >= next (i.e. > next−1) that is taken when the lookup SUCCEEDED
-	{
-		found := false
-		for i, e := range ff.Edges {
-			f := ff.Facts[i]
-			if !f.IsCmp || !((f.L.Any(commitH.F) && f.R.Any(IsResult(nextH, 0).F)) || (f.R.Any(commitH.F) && f.L.Any(IsResult(nextH, 0).F))) {
-				continue
-			}
-			rej := false
-			for _, in := range e.To.Instrs {
-				if r, isR := in.(*ssa.Return); isR && classifyReturn(ff, r) == RetErr {
-					rej = true
-				}
-			}
-			if !rej {
-				continue
-			}
-			found = true
-			okNil := false
-			for _, g := range ff.FactsAt(e.From) {
-				if g.IsCmp && g.Op.String() == "==" && IsResult(nextH, 1).Match(g.L) && g.R.Sym == "nil" {
-					okNil = true
-				}
-			}
-			bad := ""
-			for _, g := range ff.FactsAt(e.From) {
-				if g.IsCmp && g.Op.String() == "!=" && IsResult(nextH, 1).Match(g.L) && g.R.Sym == "nil" {
-					bad = "the bound is tested only on the edge where the lookup FAILED: " + g.String()
-				}
-			}
-			c.Require("C06.R1 next-parameter-bound", FuncKey(vac)+": height <= next−1 when a next height exists", p.InstrPos(e.If), "the rejecting comparison is evaluated on the paths where NextHeightBFTParameters succeeded", okNil, bad)
-			// the edge that does NOT reject carries height <= next−1 (the block before the change is the last certifiable one)
-			pass := ff.Facts[i^1]
-			c.Require("C06.R1 next-parameter-bound", FuncKey(vac)+": surviving edge bound", p.InstrPos(e.If), "the non-rejecting edge of the comparison carries  commit.Height <= next − 1", pass.Entails(CmpSpec{A: commitH, B: IsResult(nextH, 0), Rel: LE, D: -1}), "surviving edge carries: "+pass.String())
-		}
-		if !found {
-			c.Require("C06.R1 next-parameter-bound", FuncKey(vac)+": height <= next−1 when a next height exists", p.Pos(vac.Pos()), "a rejecting comparison of the commit height with next−1 exists", false, "no such edge")
-		}
-	}
-	// provenance of the certificate pieces
-	{
-		one := func(name string) *Term {
-			s := CallsIn(vac, name)
-			if len(s) != 1 {
-				return nil
-			}
-			return T(s[0].Call.Value())
-		}
-		hdrAt := one("(*blockchain.DataAccess).GetBlockHeaderByHeight")
-		c.Require("C06.R1 provenance", "own header at commit.Height", p.Pos(vac.Pos()), "the certified header is the node's own header at the commit's height", hdrAt != nil && commitH.Match(hdrAt.Args[len(hdrAt.Args)-1]), "")
-		prm := one("(*consensus/liskbft.API).GetBFTParameters")
-		c.Require("C06.R1 provenance", "parameters of commit.Height", p.Pos(vac.Pos()), "keys, weights and threshold come from the BFT parameters of the commit's height", prm != nil && commitH.Match(prm.Args[len(prm.Args)-1]), "")
-		cert := one("consensus/certificate.NewCertificateFromBlock")
-		c.Require("C06.R1 provenance", "certificate built from that header", p.Pos(vac.Pos()), "NewCertificateFromBlock(own header)", cert != nil && hdrAt != nil && strings.Contains(cert.Args[0].String(), "GetBlockHeaderByHeight"), "")
-		for _, s := range CallsIn(vac, "(consensus/certificate.Certificate).VerifyAggregateCertificateSignature") {
-			a := s.Call.Common().Args
-			thr := T(a[3])
-			chain := T(a[4])
-			c.Require("C06.R1 provenance", "threshold and chain id", p.InstrPos(s.Call), "threshold = params.CertificateThreshold(), chain id = the chain's", strings.Contains(thr.String(), "BFTParams).CertificateThreshold(") && strings.Contains(thr.String(), "GetBFTParameters") && strings.HasSuffix(chain.Sym, "Chain).ChainID"), thr.String())
-		}
-		// bits and signature of the certificate are the commit's
-		for _, f := range []struct{ cf, af string }{{"AggregationBits", "AggregationBits"}, {"Signature", "CertificateSignature"}} {
-			ok := false
-			for _, st := range storesToField(vac, "consensus/certificate.Certificate", f.cf) {
-				v := T(st.Val)
-				ok = v.Op == "field" && v.Sym == f.af && v.Args[0].String() == "p2"
-			}
-			c.Require("C06.R1 provenance", "certificate."+f.cf, p.Pos(vac.Pos()), "taken from the aggregate commit under verification", ok, "")
-		}
+		c.MinInstances("C06.R7 upgrade-moves-commits", n, 2)
 	}
 
 	// ---- R2 result used under error
@@ -400,12 +466,66 @@ func runC06(c *Ctx) {
 					}
 				}
 			}
+			// the other way of filling: one append to each slice per iteration of the same loop
+			// (position = number of elements so far, equal for both while both grow together)
+			appendFill := func(v ssa.Value) (fill, []*ssa.Call, bool) {
+				var calls []*ssa.Call
+				seen := map[ssa.Value]bool{}
+				var walk func(x ssa.Value) bool
+				walk = func(x ssa.Value) bool {
+					x = stripConv(x)
+					if seen[x] {
+						return true
+					}
+					seen[x] = true
+					switch y := x.(type) {
+					case *ssa.Phi:
+						for _, e := range y.Edges {
+							if !walk(e) {
+								return false
+							}
+						}
+						return true
+					case *ssa.Call:
+						if CalleeName(y.Common()) != "builtin:append" {
+							return false
+						}
+						calls = append(calls, y)
+						return walk(y.Common().Args[0])
+					case *ssa.MakeSlice:
+						return T(y.Len).String() == "0"
+					case *ssa.Const:
+						return y.Value == nil
+					}
+					return false
+				}
+				if !walk(v) || len(calls) != 1 {
+					return fill{}, nil, false
+				}
+				el := T(calls[0].Common().Args[1])
+				if el.Op == "list" && len(el.Args) == 1 {
+					el = el.Args[0]
+				}
+				if el.Op == "field" {
+					return fill{fmt.Sprintf("append@b%d", calls[0].Block().Index), el.Args[0].String(), el.Sym}, calls, true
+				}
+				return fill{fmt.Sprintf("append@b%d", calls[0].Block().Index), el.String(), "?"}, calls, true
+			}
+			ownAppends := map[ssa.CallInstruction]bool{}
+			if _, filled := fills[keys]; !filled {
+				fk, ck, okK := appendFill(a[1])
+				fw, cw, okW := appendFill(a[2])
+				if okK && okW {
+					fills[keys], fills[weights] = fk, fw
+					ownAppends[ck[0]], ownAppends[cw[0]] = true, true
+				}
+			}
 			fk, fw := fills[keys], fills[weights]
 			ok := fk.idx != "" && fk.idx == fw.idx && fk.elem == fw.elem && fk.field == "BLSKey" && fw.field == "BFTWeight"
 			c.Require("C06.R3 keys-weights-aligned", FuncKey(vac)+": keys[i] / weights[i]", p.InstrPos(s.Call), "both slices are filled at the same index from the same element (bit i ↔ key i ↔ weight i)", ok, fmt.Sprintf("keys[%s]=%s.%s weights[%s]=%s.%s", fk.idx, fk.elem, fk.field, fw.idx, fw.elem, fw.field))
 			// neither slice is handed to anything else (e.g. a sort) before the verification
 			for _, call := range AllCallsDeep(vac) {
-				if call == s.Call || newHelperCallee(call) != nil {
+				if call == s.Call || newHelperCallee(call) != nil || ownAppends[call] {
 					continue
 				}
 				for _, arg := range call.Common().Args {
@@ -602,4 +722,144 @@ var c06UnsignedTable = []unsignedRow{
 	{fn: "pkg/consensus.(*Executer).broadcastCertificate$1", frag: "maxHeightPrecommited) − 100)", reason: "as in singleCommitValidator: a wrapped bound only removes commits from the pool earlier"},
 	{fn: "pkg/consensus.(*Executer).verifyAggregateCommit", frag: "NextHeightBFTParameters(", reason: "NextHeightBFTParameters(store, maxHeightCertified+1) returns a height >= maxHeightCertified+1 >= 1"},
 	{fn: "pkg/consensus.(*Executer).GetAggregateCommit", frag: "NextHeightBFTParameters(", reason: "as in verifyAggregateCommit: the next parameter height is >= 1"},
+}
+
+// checkAggregateCommitVerifier: the accepting exits of verifyAggregateCommit (R1). rp is the
+// rule prefix ("C06.R1"; also run as "C03.A" — a block is valid only with a valid commit).
+func checkAggregateCommitVerifier(c *Ctx, rp string, vac *ssa.Function) {
+	p := c.P
+	const AC = "blockchain.AggregateCommit"
+	heights := "(*consensus/liskbft.API).GetBFTHeights"
+	nextH := "(*consensus/liskbft.API).NextHeightBFTParameters"
+	commitH := Matcher{"commit.Height", func(t *Term) bool {
+		return t.Op == "field" && t.Sym == "Height" && t.Owner == AC && t.Args[0].String() == "p2"
+	}}
+	ff := factsOf(vac)
+	nAcc := 0
+	for _, r := range Returns(vac) {
+		if classifyReturn(ff, r) != RetNil {
+			continue
+		}
+		fs := ff.FactsAt(r.Block())
+		// the early exit for "no new certificate": Empty() ∧ Height == maxHeightCertified
+		early := false
+		for _, f := range fs {
+			if f.Entails(CmpSpec{A: commitH, B: IsResult(heights, 2), Rel: EQ, D: 0}) {
+				early = true
+			}
+		}
+		if early {
+			okE, _ := ff.BoolHoldsAt(r.Block(), IsCall("(*blockchain.AggregateCommit).Empty"), true)
+			c.Require(rp+" accept-edge", FuncKey(vac)+": empty commit", p.InstrPos(r), "an empty commit is accepted only when it is Empty() and restates maxHeightCertified", okE, "")
+			continue
+		}
+		nAcc++
+		chk := func(name string, spec CmpSpec) {
+			ok, why := false, ""
+			for _, f := range fs {
+				if f.Entails(spec) {
+					ok, why = true, f.String()
+				}
+			}
+			c.Require(rp+" accept-edge", FuncKey(vac)+": "+name, p.InstrPos(r), "the accepting exit is dominated by this bound", ok, why)
+		}
+		chk("height > maxHeightCertified", CmpSpec{A: commitH, B: IsResult(heights, 2), Rel: GE, D: 1})
+		chk("height <= maxHeightPrecommitted", CmpSpec{A: commitH, B: IsResult(heights, 1), Rel: LE, D: 0})
+		chk("aggregation bits non-empty", CmpSpec{A: LenOf(IsFieldOf(AC, "AggregationBits", IsParam(2))), NoB: true, Rel: NE, D: 0})
+		chk("signature non-empty", CmpSpec{A: LenOf(IsFieldOf(AC, "CertificateSignature", IsParam(2))), NoB: true, Rel: NE, D: 0})
+		okV, _ := ff.BoolHoldsAt(r.Block(), IsCall("(consensus/certificate.Certificate).VerifyAggregateCertificateSignature"), true)
+		c.Require(rp+" accept-edge", FuncKey(vac)+": weighted aggregate signature valid", p.InstrPos(r), "accepted only when VerifyAggregateCertificateSignature answered true", okV, "")
+		for _, callee := range []string{heights, "(*blockchain.DataAccess).GetBlockHeaderByHeight", "(*consensus/liskbft.API).GetBFTParameters"} {
+			ok, why := ff.NilErrAt(r.Block(), IsCall(callee))
+			c.Require(rp+" accept-edge", FuncKey(vac)+": "+callee+" succeeded", p.InstrPos(r), "accepted only on the nil-error edge", ok, why)
+		}
+	}
+	c.MinInstances(rp+" accept-edge", nAcc, 1)
+	// next-parameter bound: a rejecting edge height >= next (i.e. > next−1) that is taken when the lookup SUCCEEDED
+	{
+		found := false
+		type deepEdge struct {
+			e        Edge
+			f, other Fact
+			hff      *FuncFacts
+		}
+		var des []deepEdge
+		for _, hf := range funcAndHelpers(vac) { // the bounds may be checked in a helper
+			hff := factsOf(hf)
+			for i, e := range hff.Edges {
+				f, o := hff.Facts[i], hff.Facts[i^1]
+				if hf != vac {
+					f, o = liftFact(vac, hf, f, false), liftFact(vac, hf, o, false)
+				}
+				des = append(des, deepEdge{e, f, o, hff})
+			}
+		}
+		for _, de := range des {
+			e, f := de.e, de.f
+			if !f.IsCmp || !((f.L.Any(commitH.F) && f.R.Any(IsResult(nextH, 0).F)) || (f.R.Any(commitH.F) && f.L.Any(IsResult(nextH, 0).F))) {
+				continue
+			}
+			rej := false
+			for _, in := range e.To.Instrs {
+				if r, isR := in.(*ssa.Return); isR && classifyReturn(de.hff, r) == RetErr {
+					rej = true
+				}
+			}
+			if !rej {
+				continue
+			}
+			found = true
+			okNil := false
+			for _, g := range ff.FactsAt(e.From) {
+				if g.IsCmp && g.Op.String() == "==" && IsResult(nextH, 1).Match(g.L) && g.R.Sym == "nil" {
+					okNil = true
+				}
+			}
+			bad := ""
+			for _, g := range ff.FactsAt(e.From) {
+				if g.IsCmp && g.Op.String() == "!=" && IsResult(nextH, 1).Match(g.L) && g.R.Sym == "nil" {
+					bad = "the bound is tested only on the edge where the lookup FAILED: " + g.String()
+				}
+			}
+			c.Require(rp+" next-parameter-bound", FuncKey(vac)+": height <= next−1 when a next height exists", p.InstrPos(e.If), "the rejecting comparison is evaluated on the paths where NextHeightBFTParameters succeeded", okNil, bad)
+			// the edge that does NOT reject carries height <= next−1 (the block before the change is the last certifiable one)
+			pass := de.other
+			c.Require(rp+" next-parameter-bound", FuncKey(vac)+": surviving edge bound", p.InstrPos(e.If), "the non-rejecting edge of the comparison carries  commit.Height <= next − 1", pass.Entails(CmpSpec{A: commitH, B: IsResult(nextH, 0), Rel: LE, D: -1}), "surviving edge carries: "+pass.String())
+		}
+		if !found {
+			c.Require(rp+" next-parameter-bound", FuncKey(vac)+": height <= next−1 when a next height exists", p.Pos(vac.Pos()), "a rejecting comparison of the commit height with next−1 exists", false, "no such edge")
+		}
+	}
+	// provenance of the certificate pieces
+	{
+		one := func(name string) *Term {
+			s := CallsIn(vac, name)
+			if len(s) != 1 {
+				return nil
+			}
+			return T(s[0].Call.Value())
+		}
+		hdrAt := one("(*blockchain.DataAccess).GetBlockHeaderByHeight")
+		c.Require(rp+" provenance", "own header at commit.Height", p.Pos(vac.Pos()), "the certified header is the node's own header at the commit's height", hdrAt != nil && commitH.Match(hdrAt.Args[len(hdrAt.Args)-1]), "")
+		prm := one("(*consensus/liskbft.API).GetBFTParameters")
+		c.Require(rp+" provenance", "parameters of commit.Height", p.Pos(vac.Pos()), "keys, weights and threshold come from the BFT parameters of the commit's height", prm != nil && commitH.Match(prm.Args[len(prm.Args)-1]), "")
+		cert := one("consensus/certificate.NewCertificateFromBlock")
+		c.Require(rp+" provenance", "certificate built from that header", p.Pos(vac.Pos()), "NewCertificateFromBlock(own header)", cert != nil && hdrAt != nil && strings.Contains(cert.Args[0].String(), "GetBlockHeaderByHeight"), "")
+		for _, s := range CallsIn(vac, "(consensus/certificate.Certificate).VerifyAggregateCertificateSignature") {
+			a := s.Call.Common().Args
+			thr := T(a[3])
+			chain := T(a[4])
+			c.Require(rp+" provenance", "threshold and chain id", p.InstrPos(s.Call), "threshold = params.CertificateThreshold(), chain id = the chain's", strings.Contains(thr.String(), "BFTParams).CertificateThreshold(") && strings.Contains(thr.String(), "GetBFTParameters") && strings.HasSuffix(chain.Sym, "Chain).ChainID"), thr.String())
+		}
+		// bits and signature of the certificate are the commit's
+		for _, f := range []struct{ cf, af string }{{"AggregationBits", "AggregationBits"}, {"Signature", "CertificateSignature"}} {
+			ok := false
+			for _, st := range storesToField(vac, "consensus/certificate.Certificate", f.cf) {
+				v := T(st.Val)
+				ok = v.Op == "field" && v.Sym == f.af && v.Args[0].String() == "p2"
+			}
+			c.Require(rp+" provenance", "certificate."+f.cf, p.Pos(vac.Pos()), "taken from the aggregate commit under verification", ok, "")
+		}
+	}
+
 }
